@@ -3,6 +3,7 @@ import io, tracemalloc
 import conv
 import fasta_lib as F
 
+EXTRA_ANCHORS = ['assembly/scripts/pretext_to_asm.py']      # files outside the property's anchors whose change escalates the quick budget (T3)
 LEVEL = "proof"
 LEVEL_TEXT = ("Lean theorems bound what the MODEL holds (chunk sizes, read sizes, indexer buffer occupancy) and give buffer independence of results; the tie compares "
               "the real code's read(n)/chunk/buffer observations with the model's on every case; CPython's real allocations are measured with tracemalloc "
